@@ -71,6 +71,10 @@ def check_nevra_canonical(sym, with_dir, with_rpm, n_name, n_ver, n_rel, n_dir):
 def jobs(tier, seed):
     out = []
     big = tier == "thorough"
+    # small bounds first: the cheap queries decide most changes in seconds, the larger ones below widen the claim
+    for with_dir, with_epoch, with_rpm in ((False, False, False), (False, True, True), (True, False, True), (True, True, False)):
+        out.append({"harness": "nvra_roundtrip",
+                    "params": {"with_dir": with_dir, "with_epoch": with_epoch, "with_rpm": with_rpm, "n_name": 3, "n_ver": 2, "n_rel": 2, "n_dir": 2}})
     for with_dir in (False, True):
         for with_epoch in (False, True):
             for with_rpm in (False, True):
